@@ -48,14 +48,24 @@ func NewAnalyzer(out, err io.Writer, opts CLIAnalyzerOptions) *Analyzer {
 
 // Analyze analyzes the given SQL input (file or direct SQL)
 func (a *Analyzer) Analyze(input string) (*AnalyzerResult, error) {
-	result := &AnalyzerResult{}
-
 	// Use robust input detection with security checks
 	inputResult, err := DetectAndReadInput(input)
 	if err != nil {
+		result := &AnalyzerResult{}
 		result.Error = fmt.Errorf("input processing failed: %w", err)
 		return result, result.Error
 	}
+	return a.analyzeContent(inputResult)
+}
+
+// AnalyzeSQL analyzes text that is known to be SQL (read from stdin): it is never taken for a file path.
+func (a *Analyzer) AnalyzeSQL(content []byte) (*AnalyzerResult, error) {
+	return a.analyzeContent(&InputResult{Type: InputTypeSQL, Content: content, Source: "stdin"})
+}
+
+func (a *Analyzer) analyzeContent(inputResult *InputResult) (*AnalyzerResult, error) {
+	result := &AnalyzerResult{}
+	var err error
 
 	// Use pooled tokenizer
 	tkz := tokenizer.GetTokenizer()
